@@ -13,7 +13,7 @@ EXPLANATION = (
     "equivalence of the compact and the raw StrainsVec bodies is NOT decided (they treat negative/NaN pushes "
     "differently; equality needs every pushed strain >= 0)."
     " R5: sum / iter / into_vec / clone of both bodies traverse the whole list (no truncating adaptor applied to the list itself — for clone no filtering one either —, private helpers followed)."
-    " R6: the compact body keeps its element count in a field that retain_non_zero* does not maintain (the raw body answers Vec::len()): no caller may ask len()/iter() on a list after a count-desynchronising call on it (helpers inlined; the rule discharges itself once every shrinking method maintains the count)."
+    " R6: the compact body keeps its element count in a field that retain_non_zero* does not maintain (the raw body answers Vec::len()): no caller may ask len()/iter() on a list after a count-desynchronising call on it (helpers inlined; the rule discharges itself once every shrinking method maintains the count). R7: a body of util::sync that differs between the default and the sync build is a straight-line wrapper of Rc/Arc, RefCell/RwLock and their guards (no loop, no other callee): logic placed there would escape R2's comparison of the builds."
 )
 
 CONFINED = ('util::strains_vec::', 'util::sync::', '<util::strains_vec::', '<util::sync::')
